@@ -51,3 +51,7 @@ prop('C19','exploration','panic / fatal-error monitor and per-call allocation bo
  'Feeds IndexFromReader, FormatDecoder, ArchiveDecoder, the protocol reader/handshake/request/server and the index PUT handler with every element type x size-field class x body length, truncations and mutations of valid files and protocol messages of every length class; any panic (recovered or fatal), net/http "panic serving" line, or allocation above 1 MiB + 32 bytes per input byte is a violation.',
  'Allocation bound constants calibrated on the valid corpus; inputs are structured samples, not all byte strings.',
  'DESIGN.md 5/C19')
+prop('C13','exploration','independent strict catar validator (element grammar, sizes, ordering, goodbye BST with own SipHash-2-4) over generated trees, anchored on casync-made fixtures',
+ 'Packs generated trees (every root fan-out 0..130 and random ones up to thousands, nesting, hostile names, multiple xattrs, devices, FIFOs/sockets to be skipped) from disk and from a tar stream, validates every byte of the archive with a validator that shares no code with desync and that accepts the casync-made fixtures, and compares the reconstructed tree with the source listing.',
+ 'Validator written from the format description; casync itself is not available, its fixtures are the anchor. xattr value termination follows desync\'s convention (fixtures hold no xattrs).',
+ 'DESIGN.md 5/C13')
